@@ -96,13 +96,22 @@ pub fn extract(db: &SparqlDatabase) -> Dataset {
 }
 
 /// Datasets equal up to a renaming of blank nodes (lexical forms starting with "_:").
+/// Backtracking search for a bijection, pruned by a per-node signature (the multiset of
+/// quads the node occurs in, with blank nodes masked) and by incremental consistency.
 pub fn equal_up_to_bnodes(a: &Dataset, b: &Dataset) -> bool {
     if a == b {
         return true;
     }
-    let names = |d: &Dataset| -> Vec<String> {
+    if a.quad_count() != b.quad_count() || a.named.keys().collect::<Vec<_>>() != b.named.keys().collect::<Vec<_>>() {
+        return false;
+    }
+    type Q = (String, String, String, String);
+    let qa: Vec<Q> = a.quads().into_iter().collect();
+    let qb: BTreeSet<Q> = b.quads();
+    let is_b = |t: &str| t.starts_with("_:");
+    let names = |qs: &dyn Fn() -> Vec<Q>| -> Vec<String> {
         let mut s = BTreeSet::new();
-        for (x, y, z, _) in d.quads() {
+        for (x, y, z, _) in qs() {
             for t in [x, y, z] {
                 if t.starts_with("_:") {
                     s.insert(t);
@@ -111,30 +120,64 @@ pub fn equal_up_to_bnodes(a: &Dataset, b: &Dataset) -> bool {
         }
         s.into_iter().collect()
     };
-    let (na, nb) = (names(a), names(b));
-    if na.len() != nb.len() || na.len() > 6 {
+    let na = names(&|| qa.clone());
+    let nb = names(&|| qb.iter().cloned().collect());
+    if na.len() != nb.len() {
         return false;
     }
-    if a.quad_count() != b.quad_count() || a.named.keys().collect::<Vec<_>>() != b.named.keys().collect::<Vec<_>>() {
+    // ground quads must coincide
+    let ground = |qs: Vec<Q>| -> BTreeSet<Q> { qs.into_iter().filter(|q| !is_b(&q.0) && !is_b(&q.1) && !is_b(&q.2)).collect() };
+    if ground(qa.clone()) != ground(qb.iter().cloned().collect()) {
         return false;
     }
-    // brute-force bijection
-    fn rec(i: usize, na: &[String], nb: &[String], used: &mut Vec<bool>, map: &mut Vec<usize>, a: &Dataset, b: &Dataset) -> bool {
-        if i == na.len() {
-            let ren = |t: &String| -> String {
-                match na.iter().position(|x| x == t) {
-                    Some(k) => nb[map[k]].clone(),
-                    None => t.clone(),
+    let sig = |n: &String, qs: &[Q]| -> Vec<(String, String, String, String, u8)> {
+        let mask = |t: &String| if is_b(t) { "_".to_string() } else { t.clone() };
+        let mut v: Vec<_> = qs
+            .iter()
+            .filter(|q| &q.0 == n || &q.1 == n || &q.2 == n)
+            .map(|q| (mask(&q.0), mask(&q.1), mask(&q.2), q.3.clone(), (&q.0 == n) as u8 * 4 + (&q.1 == n) as u8 * 2 + (&q.2 == n) as u8))
+            .collect();
+        v.sort();
+        v
+    };
+    let qbv: Vec<Q> = qb.iter().cloned().collect();
+    let siga: Vec<_> = na.iter().map(|n| sig(n, &qa)).collect();
+    let sigb: Vec<_> = nb.iter().map(|n| sig(n, &qbv)).collect();
+    {
+        let mut x = siga.clone();
+        let mut y = sigb.clone();
+        x.sort();
+        y.sort();
+        if x != y {
+            return false;
+        }
+    }
+    fn rec(i: usize, na: &[String], nb: &[String], siga: &[Vec<(String, String, String, String, u8)>], sigb: &[Vec<(String, String, String, String, u8)>], used: &mut Vec<bool>, map: &mut Vec<usize>, qa: &[Q], qb: &BTreeSet<Q>) -> bool {
+        let ren = |t: &String, upto: usize, map: &Vec<usize>| -> Option<String> {
+            if !t.starts_with("_:") {
+                return Some(t.clone());
+            }
+            match na.iter().position(|x| x == t) {
+                Some(k) if k < upto => Some(nb[map[k]].clone()),
+                _ => None,
+            }
+        };
+        // consistency of everything fully assigned so far
+        for q in qa {
+            if let (Some(s), Some(p), Some(o)) = (ren(&q.0, i, map), ren(&q.1, i, map), ren(&q.2, i, map)) {
+                if !qb.contains(&(s, p, o, q.3.clone())) {
+                    return false;
                 }
-            };
-            let qa: BTreeSet<_> = a.quads().into_iter().map(|(s, p, o, g)| (ren(&s), ren(&p), ren(&o), g)).collect();
-            return qa == b.quads();
+            }
+        }
+        if i == na.len() {
+            return true;
         }
         for j in 0..nb.len() {
-            if !used[j] {
+            if !used[j] && siga[i] == sigb[j] {
                 used[j] = true;
                 map[i] = j;
-                if rec(i + 1, na, nb, used, map, a, b) {
+                if rec(i + 1, na, nb, siga, sigb, used, map, qa, qb) {
                     return true;
                 }
                 used[j] = false;
@@ -142,5 +185,5 @@ pub fn equal_up_to_bnodes(a: &Dataset, b: &Dataset) -> bool {
         }
         false
     }
-    rec(0, &na, &nb, &mut vec![false; nb.len()], &mut vec![0; na.len()], a, b)
+    rec(0, &na, &nb, &siga, &sigb, &mut vec![false; nb.len()], &mut vec![0; na.len()], &qa, &qb)
 }
